@@ -183,3 +183,125 @@ pub proof fn axiom_opcode_key_model()
     ensures vstd::std_specs::hash::obeys_key_model::<Opcode>()
 {
 }
+
+// ---- decoder side ----
+pub open spec fn dec1(w: usize, ins: Seq<u8>, off: int) -> usize {
+    if w == 2 { u16_of_be(ins[off], ins[off + 1]) as usize } else { ins[off] as usize }
+}
+
+// operands decoded from the first n widths
+pub open spec fn dec_ops(ws: Seq<usize>, ins: Seq<u8>, n: int) -> Seq<usize>
+    decreases n
+{
+    if n <= 0 { Seq::<usize>::empty() } else {
+        dec_ops(ws, ins, n - 1).push(dec1(ws[n - 1], ins, sum_widths(ws.subrange(0, n - 1))))
+    }
+}
+
+pub proof fn lemma_dec_ops_len(ws: Seq<usize>, ins: Seq<u8>, n: int)
+    requires 0 <= n
+    ensures dec_ops(ws, ins, n).len() == n
+    decreases n
+{
+    if n > 0 { lemma_dec_ops_len(ws, ins, n - 1); }
+}
+
+pub proof fn lemma_dec_ops_index(ws: Seq<usize>, ins: Seq<u8>, n: int, k: int)
+    requires 0 <= k < n
+    ensures dec_ops(ws, ins, n).len() == n,
+            dec_ops(ws, ins, n)[k] == dec1(ws[k], ins, sum_widths(ws.subrange(0, k)))
+    decreases n
+{
+    lemma_dec_ops_len(ws, ins, n);
+    lemma_dec_ops_len(ws, ins, n - 1);
+    if k < n - 1 { lemma_dec_ops_index(ws, ins, n - 1, k); }
+}
+
+pub proof fn lemma_sum_widths_mono(ws: Seq<usize>, n: int)
+    requires 0 <= n <= ws.len()
+    ensures 0 <= sum_widths(ws.subrange(0, n)) <= sum_widths(ws)
+    decreases ws.len() - n
+{
+    if n < ws.len() {
+        lemma_sum_widths_mono(ws, n + 1);
+        lemma_sum_widths_push(ws, n);
+        lemma_sum_nonneg(ws.subrange(0, n));
+    } else {
+        assert(ws.subrange(0, n) =~= ws);
+        lemma_sum_nonneg(ws);
+    }
+}
+
+pub proof fn lemma_sum_nonneg(ws: Seq<usize>)
+    ensures sum_widths(ws) >= 0
+    decreases ws.len()
+{
+    if ws.len() > 0 { lemma_sum_nonneg(ws.drop_last()); }
+}
+
+// ---- C14 core: decode(encode(ops)) == ops, for operands that fit their widths ----
+pub proof fn lemma_dec_prefix(ws: Seq<usize>, a: Seq<u8>, b: Seq<u8>, n: int)
+    requires widths_ok(ws), 0 <= n <= ws.len(), a.len() <= b.len(),
+             sum_widths(ws.subrange(0, n)) <= a.len(),
+             forall|i: int| 0 <= i < a.len() ==> a[i] == b[i],
+    ensures dec_ops(ws, a, n) =~= dec_ops(ws, b, n)
+    decreases n
+{
+    if n > 0 {
+        lemma_sum_widths_push(ws, n - 1);
+        lemma_sum_nonneg(ws.subrange(0, n - 1));
+        lemma_dec_prefix(ws, a, b, n - 1);
+    }
+}
+
+pub proof fn lemma_be16_roundtrip(v: usize)
+    requires v <= 0xffff
+    ensures u16_of_be(be16(v as u16)[0], be16(v as u16)[1]) == v
+{
+    let x = v as u16;
+    assert(x == v);
+    assert((x / 256) as u8 == x / 256);
+    assert((x % 256) as u8 == x % 256);
+}
+
+pub proof fn lemma_roundtrip(ws: Seq<usize>, ops: Seq<usize>, n: int)
+    requires widths_ok(ws), 0 <= n <= ws.len(), n <= ops.len(),
+             forall|i: int| 0 <= i < n ==> fits(ws[i], #[trigger] ops[i]),
+    ensures dec_ops(ws, enc_ops(ws, ops, n), n) =~= ops.subrange(0, n)
+    decreases n
+{
+    if n > 0 {
+        let e0 = enc_ops(ws, ops, n - 1);
+        let e1 = enc_ops(ws, ops, n);
+        lemma_roundtrip(ws, ops, n - 1);
+        lemma_enc_len(ws, ops, n - 1);
+        lemma_enc_len(ws, ops, n);
+        lemma_sum_widths_push(ws, n - 1);
+        lemma_dec_prefix(ws, e0, e1, n - 1);
+        let off = sum_widths(ws.subrange(0, n - 1));
+        assert(e0.len() == off);
+        let w = ws[n - 1];
+        let v = ops[n - 1];
+        assert(fits(w, v));
+        if w == 2 {
+            lemma_be16_roundtrip(v);
+            assert(e1[off] == be16(v as u16)[0]);
+            assert(e1[off + 1] == be16(v as u16)[1]);
+        } else {
+            assert(w == 1);
+            assert(e1[off] == v as u8);
+            assert((v as u8) as usize == v);
+        }
+        assert(dec1(w, e1, off) == v);
+        assert(dec_ops(ws, e1, n) =~= dec_ops(ws, e0, n - 1).push(v));
+        assert(ops.subrange(0, n) =~= ops.subrange(0, n - 1).push(v));
+    }
+}
+
+// and the converse direction used for "rejected or lossless": an operand that does not fit
+// is NOT recovered (so silent truncation is observable as a decode mismatch)
+pub proof fn lemma_unfit_not_recovered(w: usize, v: usize, ins: Seq<u8>, off: int)
+    requires w == 1 || w == 2, !fits(w, v), 0 <= off, off + 2 <= ins.len()
+    ensures dec1(w, ins, off) != v
+{
+}
